@@ -8,5 +8,5 @@ CONSTANTS
   MaxLinks = 2
   T = 3
   Emit = TRUE
-INVARIANTS LinkOrderIrrelevant
+INVARIANTS LinkOrderIrrelevant SelectionLocal
 CHECK_DEADLOCK FALSE
